@@ -243,7 +243,7 @@ fn describe(ids: &mut Ids, consensus: &Consensus, db: Option<&ChainDB>, cyc: u64
         if let Some(parent_header) = db.get_block_header(&blk.parent_hash()) {
             let loader = db.borrow_as_data_loader();
             let epoch = consensus.next_epoch_ext(&parent_header, &loader).expect("epoch").epoch();
-            let xep = epoch.number_with_fraction(blk.number());
+            let xep = epoch.number_with_fraction(parent_header.number() + 1);
             s += &format!(" xep={}/{}/{} xtgt={}", xep.number(), xep.index(), xep.length(), epoch.compact_target());
             // chain root
             let root_ok = match blk.extension() {
@@ -348,6 +348,8 @@ fn classify(dbg: &str) -> &'static str {
         ("InvalidExtraHash", "extra-hash"),
         ("ExceededMaximumCycles", "cycles"),
         ("BlockTransactions", "txs"),
+        ("kind: OutPoint", "resolve"),
+        ("kind: Transaction", "txs-noncontextual"),
     ];
     for (pat, cls) in TABLE {
         if dbg.contains(pat) {
@@ -371,7 +373,59 @@ enum Intent {
     Resubmit,
 }
 
+/// the main chain replayed into a plain ChainDB (no verification): the reference store on which the
+/// context oracles of a block built on the tip are computed (same steps as `ChainBuilder::attach`)
+struct RefStore {
+    db: ChainDB,
+    tip: Byte32,
+}
+
+impl RefStore {
+    fn new(consensus: &Consensus, dir: &Path) -> RefStore {
+        let db = ChainDB::new(ckb_db::RocksDB::open_in(dir, ckb_db_schema::COLUMNS), Default::default());
+        db.init(consensus).expect("init reference store");
+        RefStore { db, tip: consensus.genesis_hash() }
+    }
+
+    fn attach(&mut self, consensus: &Consensus, block: &BlockView) {
+        let db = &self.db;
+        assert_eq!(block.parent_hash(), self.tip);
+        let parent_header = db.get_block_header(&block.parent_hash()).expect("parent in reference store");
+        let parent_ext = db.get_block_ext(&block.parent_hash()).expect("parent ext");
+        let next_epoch = consensus.next_epoch_ext(&parent_header, &db.borrow_as_data_loader()).expect("epoch");
+        let epoch = next_epoch.epoch();
+        let txn = db.begin_transaction();
+        txn.insert_block(block).unwrap();
+        txn.attach_block(block).unwrap();
+        ckb_store::attach_block_cell(&txn, block).unwrap();
+        txn.insert_block_epoch_index(&block.hash(), &epoch.last_block_hash_in_previous_epoch()).unwrap();
+        if next_epoch.is_head() {
+            txn.insert_epoch_ext(&epoch.last_block_hash_in_previous_epoch(), &epoch).unwrap();
+        }
+        let ext = ckb_types::core::BlockExt {
+            received_at: 0,
+            total_difficulty: parent_ext.total_difficulty.clone() + block.header().difficulty(),
+            total_uncles_count: parent_ext.total_uncles_count + block.data().uncles().len() as u64,
+            verified: Some(true),
+            txs_fees: vec![],
+            cycles: None,
+            txs_sizes: None,
+        };
+        txn.insert_block_ext(&block.hash(), &ext).unwrap();
+        txn.insert_tip_header(&block.header()).unwrap();
+        txn.insert_current_epoch_ext(&epoch).unwrap();
+        {
+            let mut mmr = ChainRootMMR::new(leaf_index_to_mmr_size(block.number() - 1), &txn);
+            mmr.push(block.digest()).expect("mmr push");
+            mmr.commit().expect("mmr commit");
+        }
+        txn.commit().unwrap();
+        self.tip = block.hash();
+    }
+}
+
 struct Case<'a> {
+    refstore: RefStore,
     out: &'a mut Out,
     rng: Rng,
     node: Node,
@@ -441,7 +495,10 @@ impl Case<'_> {
             return;
         }
         let known = self.builder.blocks.contains_key(parent);
-        let lines: Vec<String> = if known {
+        let lines: Vec<String> = if &self.refstore.tip == parent {
+            let db = &self.refstore.db;
+            todo.iter().map(|b| describe(&mut self.ids, &self.consensus, Some(db), self.cyc, b)).collect()
+        } else if known {
             let db = self.builder.replay_store(parent);
             todo.iter().map(|b| describe(&mut self.ids, &self.consensus, Some(db), self.cyc, b)).collect()
         } else {
@@ -652,6 +709,7 @@ fn run_case(out: &mut Out, seed: u64, base: &Path, cyc: u64, steps: usize) {
     let builder = ChainBuilder::new(consensus.clone(), &dir.join("builder"));
     let cells = genesis_cells(&consensus);
     let mut c = Case {
+        refstore: RefStore::new(&consensus, &dir.join("refstore")),
         out,
         rng,
         node,
@@ -690,9 +748,10 @@ fn run_case(out: &mut Out, seed: u64, base: &Path, cyc: u64, steps: usize) {
     if c.rules_hit.len() >= 6 {
         c.out.nontrivial(fp);
     }
-    let Case { node, builder, .. } = c;
+    let Case { node, builder, refstore, .. } = c;
     node.stop();
     drop(builder);
+    drop(refstore);
     let _ = std::fs::remove_dir_all(&dir);
 }
 
@@ -734,6 +793,12 @@ fn valid_uncles(c: &Case, new_epoch: u64, max: usize) -> Vec<BlockView> {
     c.pool.iter().filter(|u| u.epoch().number() == new_epoch && main.contains(&u.parent_hash()) && !main.contains(&u.hash())).take(max).cloned().collect()
 }
 
+/// a fully valid sibling of `b` made by surgery (other timestamp / proposals, no uncles): same
+/// transactions, hence same DAO field, reward and chain root
+fn sibling_of(b: &BlockView, dt: u64, proposals: Vec<ProposalShortId>) -> BlockView {
+    b.as_advanced_builder().timestamp(b.timestamp() + dt).set_proposals(proposals).set_uncles(vec![]).build()
+}
+
 fn step(c: &mut Case) {
     let parent = c.tip.clone();
     let ph = c.builder.block(&parent).clone();
@@ -765,15 +830,17 @@ fn step(c: &mut Case) {
         }
     }
     c.pending = keep;
-    // keep the block under the size/cycle limits of the case
-    let max_txs = if c.cc.defaults { 4 } else { (c.cc.max_cycles / c.cyc) as usize };
-    while commit_now.len() > max_txs {
+    // keep the block under the cycle limit of the case; the overflow is used for the limit+1 probe
+    let room = if c.cc.defaults { 4 } else { (c.cc.max_cycles / c.cyc) as usize };
+    let mut overflow: Option<TransactionView> = None;
+    while commit_now.len() > room {
         let x = commit_now.pop().unwrap();
+        overflow = Some(x.0.clone());
         if h - x.1 < wf { c.pending.push(x) } else { expired.push(x) }
     }
     spec.txs = commit_now.iter().map(|(t, _)| t.clone()).collect();
     // proposals
-    let n_prop = c.rng.below(3) as usize;
+    let n_prop = c.rng.below(4) as usize;
     let mut new_props = vec![];
     for _ in 0..n_prop {
         if (spec.proposals.len() as u64) < c.consensus.max_block_proposals_limit() {
@@ -782,6 +849,19 @@ fn step(c: &mut Case) {
                 new_props.push(tx);
             }
         }
+    }
+    // proposals exactly at the limit (valid side of the limit)
+    let mut at_limit = false;
+    if !c.cc.defaults && c.rng.chance(1, 6) {
+        let mut i = 0u64;
+        while (spec.proposals.len() as u64) < c.consensus.max_block_proposals_limit() {
+            let mut b = [0u8; 10];
+            b[..8].copy_from_slice(&(salt * 10_000 + 5000 + i).to_le_bytes());
+            b[9] = 0xdd;
+            spec.proposals.push(ProposalShortId::new(b));
+            i += 1;
+        }
+        at_limit = true;
     }
     // expected epoch of the new block
     let new_epoch = {
@@ -792,19 +872,39 @@ fn step(c: &mut Case) {
     let n_unc = c.rng.below(3) as usize;
     let uncles = valid_uncles(c, new_epoch, n_unc);
     spec.uncles = uncles.iter().map(|u| u.as_uncle()).collect();
+    // boundary kinds decided before building, so that the builder's store follows the accepted block
+    let bkind = c.rng.below(12);
+    let median = median_of_parent(c, &parent);
+    if bkind == 0 {
+        spec.timestamp = Some(median + 1);
+    }
+    // one transaction more than the block cycle limit allows (every transaction properly proposed);
+    // built first and never attached to the builder's store
+    let mut over_block = None;
+    if let Some(tx) = overflow {
+        if !c.cc.defaults && commit_now.len() == room {
+            let s = c.next_salt();
+            let mut ospec = spec.clone();
+            ospec.salt = s;
+            ospec.txs.push(tx);
+            ospec.tweak = Tweak::Timestamp(spec.timestamp.unwrap_or(ph.timestamp() + 2));
+            over_block = Some(c.builder.build(&parent, &ospec));
+        }
+    }
     let v = c.builder.build(&parent, &spec);
     // a sibling for later use as an uncle (sometimes with proposals, sometimes also stored by the node)
     let sib = if c.rng.chance(1, 2) {
-        let s2 = c.next_salt();
-        let mut sspec = BlockSpec { salt: s2, ..Default::default() };
+        let mut props = vec![];
         if c.rng.chance(1, 2) {
             if let Some(tx) = fresh_tx(c) {
-                sspec.proposals.push(tx.proposal_short_id());
+                props.push(tx.proposal_short_id());
                 // proposed only inside a future uncle
                 c.pending.push((tx, u64::MAX));
             }
         }
-        Some(c.builder.build(&parent, &sspec))
+        let s = sibling_of(&v, 1 + c.rng.below(3), props);
+        c.builder.blocks.insert(s.hash(), s.clone());
+        Some(s)
     } else {
         None
     };
@@ -816,6 +916,13 @@ fn step(c: &mut Case) {
         if let Some(m) = make_mutant(c, &v, &ph, &too_early, &expired, sib.as_ref()) {
             mutants.push((m.0, m.1, now));
         }
+    }
+    if let Some(over) = over_block {
+        mutants.push((over, "cycles-limit+1", now));
+        c.rules_hit.insert("cycles-limit:Valid".into());
+    }
+    if at_limit {
+        c.rules_hit.insert("proposals-limit:Valid".into());
     }
     {
         let mut all: Vec<&BlockView> = mutants.iter().map(|m| &m.0).collect();
@@ -829,9 +936,9 @@ fn step(c: &mut Case) {
         c.bad.insert(m.hash());
         c.submit(m, *now, Intent::Invalid, rule);
     }
-    // boundary probes that need a valid block of their own (they replace `v` when chosen)
-    let v = boundary_valid(c, v, &ph, &spec, now);
+    let v = boundary_valid(c, v, &ph, bkind, median, now);
     c.tip = v.hash();
+    c.refstore.attach(&c.consensus, &v);
     // bookkeeping
     for (tx, _) in commit_now {
         let cap: u64 = tx.outputs().get(0).unwrap().capacity().unpack();
@@ -858,7 +965,7 @@ fn step(c: &mut Case) {
         c.pool.push(s);
     }
     // side-branch variant
-    if c.rng.chance(1, 4) && h >= 3 {
+    if c.rng.chance(1, 5) && h >= 3 {
         side_branch(c);
     }
     // an attached block submitted again, with the same header and a different body
@@ -868,22 +975,19 @@ fn step(c: &mut Case) {
 }
 
 /// the valid side of the boundaries that need their own block; returns the block that became the tip
-fn boundary_valid(c: &mut Case, v: BlockView, ph: &BlockView, spec: &BlockSpec, now: u64) -> BlockView {
+fn boundary_valid(c: &mut Case, v: BlockView, ph: &BlockView, kind: u64, median: u64, now: u64) -> BlockView {
     let parent = ph.hash();
-    let kind = c.rng.below(8);
     match kind {
         0 => {
-            // timestamp = median (reject) / median + 1 (accept)
-            let m = median_of_parent(c, &parent);
-            let s1 = c.next_salt();
-            let old = c.builder.build(&parent, &BlockSpec { salt: s1, timestamp: Some(m), tweak: Tweak::Timestamp(m), ..spec.clone() });
+            // timestamp = median (reject) / median + 1 (accept): `v` was built with median + 1
+            assert_eq!(v.timestamp(), median + 1);
+            let old = v.as_advanced_builder().timestamp(median).build();
             c.bad.insert(old.hash());
-            c.submit(&old, m + 1 + FUTURE, Intent::Invalid, "ts-median");
-            let s2 = c.next_salt();
-            let ok = c.builder.build(&parent, &BlockSpec { salt: s2, timestamp: Some(m + 1), ..spec.clone() });
+            c.describe_all(&parent, &[&old]);
+            c.submit(&old, median + 1 + FUTURE, Intent::Invalid, "ts-median");
             let jitter = c.rng.below(3) * 7000;
-            c.submit(&ok, m + 1 + jitter, Intent::Valid, "ts-median+1");
-            ok
+            c.submit(&v, median + 1 + jitter, Intent::Valid, "ts-median+1");
+            v
         }
         1 => {
             // timestamp = now + ALLOWED_FUTURE (accept) / one more ms (reject): same block, clock moved
@@ -891,12 +995,10 @@ fn boundary_valid(c: &mut Case, v: BlockView, ph: &BlockView, spec: &BlockSpec, 
             c.submit(&v, v.timestamp() - FUTURE, Intent::Valid, "ts-future");
             v
         }
-        2 if !c.cc.defaults && v.uncles().hashes().is_empty() => {
+        2 if !c.cc.defaults => {
             // block bytes exactly at the limit (accept) / limit + 1 (reject)
-            let size = v.data().serialized_size_without_uncle_proposals() as u64;
             let base = pad_cellbase_witness(&v, 0);
             let bsize = base.data().serialized_size_without_uncle_proposals() as u64;
-            let _ = size;
             if bsize <= c.cc.max_bytes {
                 let pad = (c.cc.max_bytes - bsize) as usize;
                 let over = pad_cellbase_witness(&v, pad + 1);
@@ -913,7 +1015,7 @@ fn boundary_valid(c: &mut Case, v: BlockView, ph: &BlockView, spec: &BlockSpec, 
             }
         }
         3 => {
-            // extension of 96 bytes (accept) / 97 (reject); the root is the first 32 bytes
+            // extension of 32 / 96 bytes (accept) / 97 (reject); the root is the first 32 bytes
             let at = v.as_advanced_builder().extension(ext_of_len(&v, 96)).build();
             let over = v.as_advanced_builder().extension(ext_of_len(&v, 97)).build();
             c.builder.blocks.insert(at.hash(), at.clone());
@@ -1043,8 +1145,12 @@ fn make_mutant(
             }
             let gp = ph.parent_hash();
             let s = c.next_salt();
-            let good = c.builder.build(&gp, &BlockSpec { salt: s, ..Default::default() });
-            c.pool.push(good.clone());
+            let _ = gp;
+            let good = sibling_of(ph, 1 + s % 5, vec![]);
+            c.builder.blocks.insert(good.hash(), good.clone());
+            if !c.pool.iter().any(|p| p.hash() == good.hash()) {
+                c.pool.push(good.clone());
+            }
             let same_epoch = good.epoch().number() == ep.number();
             let u = good.as_uncle();
             let base_uncles: Vec<UncleBlockView> = vec![];
@@ -1237,15 +1343,33 @@ fn resubmit(c: &mut Case) {
     };
     assert_eq!(variant.hash(), b.hash());
     c.out.count("resubmit-variant-body");
-    let before = c.node.store().get_block(&b.hash()).map(|x| x.data());
+    let raw = |node: &Node| -> (Option<Vec<u8>>, Option<Vec<u8>>) {
+        let st = node.store();
+        (
+            st.get(ckb_db_schema::COLUMN_BLOCK_UNCLE, b.hash().as_slice()).map(|x| x.as_ref().to_vec()),
+            st.get(ckb_db_schema::COLUMN_BLOCK_EXTENSION, b.hash().as_slice()).map(|x| x.as_ref().to_vec()),
+        )
+    };
+    let before = raw(&c.node);
     let r = c.node.controller().blocking_process_block(Arc::new(variant.clone()));
-    let after = c.node.store().get_block(&b.hash()).map(|x| x.data());
+    let after = raw(&c.node);
     c.out.count(&format!("resubmit-variant:{}", match &r { Ok(true) => "ok-true", Ok(false) => "ok-false", Err(_) => "err" }));
-    if before.as_ref().map(|x| x.as_slice().to_vec()) != after.as_ref().map(|x| x.as_slice().to_vec()) {
+    if before != after {
         c.out.oracle_fail(
             "attached-body-replaced",
-            &format!("block {} {:#x}: re-delivering the attached block with the same header and a different body ({}) replaced the stored body", b.number(), b.hash(), if b.uncles().hashes().is_empty() { "extension" } else { "uncles" }),
+            &format!(
+                "main-chain block {} {:#x}: delivering it again with the same header and a different body ({}) returned {:?} and replaced the stored body; the stored block no longer matches its header's extra_hash",
+                b.number(),
+                b.hash(),
+                if b.uncles().hashes().is_empty() { "extension changed" } else { "uncles dropped" },
+                r.as_ref().map_err(|e| e.to_string())
+            ),
         );
+        // put the original body back so that the rest of the case runs on an intact store
+        let _ = c.node.controller().blocking_process_block(Arc::new(b.clone()));
+        if raw(&c.node) != before {
+            c.out.oracle_fail("attached-body-not-restored", "re-delivering the original block did not restore the stored body");
+        }
     }
 }
 
